@@ -598,3 +598,145 @@ pub fn run_auth(o: &mut Out) {
         }
     }
 }
+
+// ------------------------------------------------------------------------------------------------
+// twin deployments
+
+fn masked_status(text: &str) -> String {
+    // pools[...|fees|SDW|lp|total;...] : blank out the three status bits
+    let mut out = String::new();
+    for (i, part) in text.split('|').enumerate() {
+        if i > 0 { out.push('|'); }
+        if part.len() == 3 && part.chars().all(|c| c == '0' || c == '1') { out += "***"; } else { out += part; }
+    }
+    out
+}
+
+/// C14 / C17 twins.  Deployment A is driven by the pm generator; its lines are replayed on B.
+pub fn run_twin(seed: u64, cases: u64, o: &mut Out) {
+    let mut r0 = Rng::new(seed ^ 0x7717);
+    for i in 0..cases {
+        let mut r = r0.fork();
+        let cfg = gen_cfg(&mut r);
+        // ---------------- deployment A: prefix
+        let mut run_a = crate::streams::hist::Runner::new(cfg.clone());
+        o.raw(&format!("begin {}", 2 * i));
+        let il = run_a.h.init_line();
+        o.line(&il, "ok");
+        run_a.first_snap(o);
+        let mut log: Vec<String> = vec![];
+        {
+            let mut g = Gen { faults: false, run: run_a, r: &mut r, o, ops: 0 };
+            // two-asset pools only, so that single-asset deposits apply
+            for _ in 0..3 { g.op_create_pool(); }
+            for _ in 0..5 { g.op_provide(); }
+            for _ in 0..4 { g.op_swap(); }
+            run_a = g.run;
+        }
+        // the lines executed on A so far: re-derive from the position ids is not possible, so the generator
+        // above is re-run on B through a recorded log: Runner keeps it
+        log.extend(run_a.log.iter().cloned());
+        // ---------------- deployment B: same prefix
+        let mut run_b = crate::streams::hist::Runner::new(cfg.clone());
+        let mut ob = Out::buffer();
+        let ilb = run_b.h.init_line();
+        ob.line(&ilb, "ok");
+        run_b.first_snap(&mut ob);
+        for l in log.iter() { run_b.step(l, &mut ob); }
+        // pick a funded two-asset pool
+        let pools = run_a.h.all_pools();
+        let cands: Vec<_> = pools.iter().filter(|p| p.pool_info.assets.len() == 2 && p.pool_info.assets.iter().all(|a| !a.amount.is_zero())).collect();
+        let twin_kind = if i % 2 == 0 { "c14" } else { "c17" };
+        if cands.is_empty() {
+            o.raw("end");
+            continue;
+        }
+        let p = cands[r.below(cands.len() as u64) as usize].pool_info.clone();
+        let pid = p.pool_identifier.clone();
+        let user = SENDERS[r.below(4) as usize];
+        if twin_kind == "c14" {
+            let oi = r.below(2) as usize;
+            let (od, ad) = (p.assets[oi].denom.clone(), p.assets[1 - oi].denom.clone());
+            let res = p.assets[oi].amount.u128();
+            let a = (res / [10_000u128, 1000, 100, 20][r.below(4) as usize] + 1 + r.below(2) as u128).max(2);
+            let ss = ["-", "500000000000000000", "1000000000000000000"][r.below(3) as usize];
+            let (unlock, lockid) = match r.below(3) { 0 => ((DAY * (1 + r.below(100))).to_string(), "-".to_string()), 1 => ((DAY * (1 + r.below(100))).to_string(), "tw".to_string()), _ => ("-".into(), "-".into()) };
+            let lp = run_a.h.w.cd(&p.lp_denom);
+            // A: single-asset deposit
+            let res_a = run_a.step(&format!("tx {} 1 {} {} pm provide {} - {} - {} {}", user, od, a, pid, ss, unlock, lockid), o);
+            o.raw("end");
+            // B: swap half, then deposit half + proceeds
+            o.raw(&format!("begin {}", 2 * i + 1));
+            // flush B's prefix output into the main stream
+            ob.flush_into(o);
+            let half = a / 2;
+            let ask_before = run_b.h.w.balance(user, &ad);
+            let res_b1 = run_b.step(&format!("tx {} 1 {} {} pm swap {} {} - {} -", user, od, half, pid, ad, ss), o);
+            let proceeds = run_b.h.w.balance(user, &ad).saturating_sub(ask_before);
+            let mut funds = vec![coin(half, od.clone()), coin(proceeds, ad.clone())];
+            funds.sort_by(|x, y| x.denom.cmp(&y.denom));
+            let res_b2 = if res_b1 == "ok" {
+                run_b.step(&format!("tx {} {} pm provide {} - {} - {} {}", user, coins_str(&funds), pid, ss, unlock, lockid), o)
+            } else { "skip".to_string() };
+            let (oa, ob2) = (&run_a.h.last_obs, &run_b.h.last_obs);
+            let pa = oa.pools.iter().find(|x| x.pool_info.pool_identifier == pid).unwrap();
+            let pb = ob2.pools.iter().find(|x| x.pool_info.pool_identifier == pid).unwrap();
+            let g = |ob_: &crate::streams::hist::Obs, who: &str, d: &str| *ob_.bal.get(&(who.to_string(), d.to_string())).unwrap_or(&0);
+            let locked = |ob_: &crate::streams::hist::Obs| -> u128 { ob_.positions.iter().filter(|q| q.lp_asset.denom == p.lp_denom).map(|q| q.lp_asset.amount.u128()).sum() };
+            o.line(&format!("mon_twin_c14 {} {} {} {} {} {} {} {} {} {} {} {} {} {} {} {} {} {}",
+                (res_a == "ok") as u8, (res_b1 == "ok") as u8, (res_b2 == "ok") as u8, a % 2,
+                pa.pool_info.assets[0].amount, pb.pool_info.assets[0].amount, pa.pool_info.assets[1].amount, pb.pool_info.assets[1].amount,
+                pa.total_share.amount, pb.total_share.amount,
+                g(oa, user, &lp), g(ob2, user, &lp), locked(oa), locked(ob2),
+                g(oa, "fc", &ad), g(ob2, "fc", &ad),
+                g(oa, "pm", &od), g(ob2, "pm", &od)), "ok");
+            o.raw("end");
+        } else {
+            // C17: B disables a feature of pool `pid`; both then run an operation that does not need it
+            let feature = r.below(3);
+            let (s, d, w) = match feature { 0 => ("false", "-", "-"), 1 => ("-", "false", "-"), _ => ("-", "-", "false") };
+            // operation on the same pool that needs a *different* feature, or any operation on another pool
+            let other: Vec<_> = pools.iter().filter(|q| q.pool_info.pool_identifier != pid && q.pool_info.assets.iter().all(|a| !a.amount.is_zero())).collect();
+            let lp = run_a.h.w.cd(&p.lp_denom);
+            let bal_lp = run_a.h.w.balance(user, &lp);
+            let op_line = match (feature, r.below(3)) {
+                (0, 0) | (2, 0) => { // deposit into pid (needs deposits only)
+                    let mut f = vec![coin(p.assets[0].amount.u128() / 50 + 1, p.assets[0].denom.clone()), coin(p.assets[1].amount.u128() / 50 + 1, p.assets[1].denom.clone())];
+                    f.sort_by(|x, y| x.denom.cmp(&y.denom));
+                    format!("tx {} {} pm provide {} - - - - -", user, coins_str(&f), pid)
+                }
+                (1, 0) | (2, 1) => { // swap on pid (needs swaps only)
+                    format!("tx {} 1 {} {} pm swap {} {} - 500000000000000000 -", user, p.assets[0].denom, p.assets[0].amount.u128() / 1000 + 1, pid, p.assets[1].denom)
+                }
+                (0, 1) | (1, 1) if bal_lp > 0 => format!("tx {} 1 {} {} pm withdraw {}", user, lp, bal_lp / 3 + 1, pid),
+                _ => {
+                    if let Some(q) = other.first() {
+                        let qi = &q.pool_info;
+                        format!("tx {} 1 {} {} pm swap {} {} - 500000000000000000 -", user, qi.assets[0].denom, qi.assets[0].amount.u128() / 1000 + 1, qi.pool_identifier, qi.assets[1].denom)
+                    } else {
+                        "advance 1000000000".to_string()
+                    }
+                }
+            };
+            let res_a = run_a.step(&op_line, o);
+            o.raw("end");
+            o.raw(&format!("begin {}", 2 * i + 1));
+            ob.flush_into(o);
+            run_b.step(&format!("tx owner 0 pm config - - - - {} {} {} {}", pid, s, d, w), o);
+            let res_b = run_b.step(&op_line, o);
+            let same = masked_status(&run_a.h.last_obs.text) == masked_status(&run_b.h.last_obs.text);
+            o.line(&format!("mon_twin_c17 {} {} {}", (res_a == "ok") as u8, (res_b == "ok") as u8, same as u8), "ok");
+            // and the switched operation itself is rejected on B
+            let blocked_line = match feature {
+                0 => format!("tx {} 1 {} {} pm swap {} {} - 500000000000000000 -", user, p.assets[0].denom, p.assets[0].amount.u128() / 1000 + 1, pid, p.assets[1].denom),
+                1 => { let mut f = vec![coin(p.assets[0].amount.u128() / 50 + 1, p.assets[0].denom.clone()), coin(p.assets[1].amount.u128() / 50 + 1, p.assets[1].denom.clone())]; f.sort_by(|x, y| x.denom.cmp(&y.denom)); format!("tx {} {} pm provide {} - - - - -", user, coins_str(&f), pid) }
+                _ => format!("tx {} 1 {} {} pm withdraw {}", user, lp, (bal_lp / 3).max(1), pid),
+            };
+            run_b.step(&blocked_line, o);
+            // re-enable: behaves as A again
+            run_b.step(&format!("tx owner 0 pm config - - - - {} {} {} {}", pid, s.replace("false", "true"), d.replace("false", "true"), w.replace("false", "true")), o);
+            o.raw("end");
+        }
+    }
+}
+
